@@ -409,7 +409,7 @@ class Check:
             self.violation("no longer established: " + "; ".join(self.broken)[:600],
                            {"property": self.pid, "broken": self.broken, "seed": self.seed, "tier": self.tier}, no_input=True)
         for cls, text in sorted(self.known_seen.items()):
-            print("KNOWN-FINDING: property=%s class=%s %s" % (self.pid, cls, text))
+            print("KNOWN-FINDING: property=%s %s" % (self.pid, text if text.startswith("class=") else "class=%s %s" % (cls, text)))
         nviol = 0
         for what, replay, no_input in self.violations[:20]:
             replay = dict(replay)
